@@ -19,6 +19,7 @@ Meaning under the standard grammar and so tells a printer fault from a parser fa
 
 from __future__ import annotations
 
+import concurrent.futures
 import json
 import multiprocessing as mp
 import os
@@ -47,9 +48,22 @@ def _cfg(scratch: str, name: str, out: str, **subst) -> str:
     return path
 
 
+def _tlc(ctx, *a, **kw):
+    """ctx.tlc, repeated when the JVM was killed from outside (shared machine): a run that ends by a signal without
+    TLC having reported anything says nothing about the specification."""
+    for attempt in range(3):
+        res = ctx.tlc(*a, **kw)
+        killed = res.returncode in (-9, -15, 137, 143) and not res.timed_out and not res.violated and not res.errors
+        if not killed:
+            return res
+        ctx.note(f"TLC run {kw.get('tag')} was killed by a signal (rc={res.returncode}); repeated")
+        ctx.tlc_runs[-1]["killed"] = True
+    return res
+
+
 def _design_ok(res, what: str) -> None:
     if res.violated or res.errors or res.returncode != 0:
-        raise MachineryError(f"design specification check failed ({what}): violated={res.violated} "
+        raise MachineryError(f"design specification check failed ({what}): rc={res.returncode} violated={res.violated} "
                              f"errors={res.errors[:2]}\n{res.tail(25)}")
 
 
@@ -119,16 +133,18 @@ def run(ctx):
 
     # ---- (1) explicit strings: precedence / associativity lemmas -------------------------------------
     t0 = time.time()
-    res = ctx.tlc(MC, os.path.join(SYM, "SymDimMC_shapes.cfg"), tag="shapes", deadlock=False, timeout=600, workers=4)
+    res = _tlc(ctx, MC, os.path.join(SYM, "SymDimMC_shapes.cfg"), tag="shapes", deadlock=False, timeout=600, workers=4)
     _design_ok(res, "ShapeMeaning / ShapeReprint / constant-level lemmas")
     envs3, shapes = _records(res, "shapes")
     parts["tlc_shapes"] = round(time.time() - t0, 1)
 
     # ---- (2) all trees of depth <= 2: operator part and grammar part -------------------------------------
     t0 = time.time()
+    # LightLemmas stays TRUE for the operator trees (PartialOK / all print modes on the ~30 000 emitted trees of the
+    # thorough tier rather than on all 406 125: ~10 ms each); the grammar enumeration runs them on every tree
     cfg = _cfg(ctx.scratch, "SymDimMC_ops.cfg", "ops_v.cfg", PerClass=40 if thorough else 2, SampleRem=rem,
-               LightLemmas="FALSE" if thorough else "TRUE")
-    res = ctx.tlc(MC, cfg, tag="ops", deadlock=False, timeout=3600 if thorough else 900)
+               LightLemmas="TRUE")
+    res = _tlc(ctx, MC, cfg, tag="ops", deadlock=False, timeout=3600 if thorough else 900)
     _design_ok(res, "operator trees: ValueTable RoundTripTree DesugarOK RoundTripValue PartialOK NormalForm Integral")
     envs2, trees = _records(res, "ops")
     n_enum_ops = res.distinct
@@ -137,7 +153,7 @@ def run(ctx):
     t0 = time.time()
     cfg = _cfg(ctx.scratch, "SymDimMC_gram.cfg", "gram_v.cfg", PerClass=20 if thorough else 2, SampleRem=rem,
                LightLemmas="FALSE" if thorough else "TRUE")
-    res = ctx.tlc(MC, cfg, tag="gram", deadlock=False, timeout=3600 if thorough else 900)
+    res = _tlc(ctx, MC, cfg, tag="gram", deadlock=False, timeout=3600 if thorough else 900)
     _design_ok(res, "grammar trees: RoundTripTree RoundTripValue PartialOK NormalForm Integral")
     envs2g, gtrees = _records(res, "gram")
     n_enum_gram = res.distinct
@@ -149,9 +165,14 @@ def run(ctx):
     rtrees = []
     if thorough:
         t0 = time.time()
-        for k in range(4):
-            cfg = _cfg(ctx.scratch, "SymDimMC_rand.cfg", f"rand_{k}.cfg", NRand=2500, RandDepth=3)
-            res = ctx.tlc(MC, cfg, tag=f"rand{k}", deadlock=False, timeout=3000, seed=ctx.seed + k, workers=1)
+        # initial states are generated by one thread: several seeds side by side
+        def one(k):
+            cfg = _cfg(ctx.scratch, "SymDimMC_rand.cfg", f"rand_{k}.cfg", NRand=1250, RandDepth=3)
+            return _tlc(ctx, MC, cfg, tag=f"rand{k}", deadlock=False, timeout=3000, seed=ctx.seed + k, workers=1, heap="2g")
+
+        with concurrent.futures.ThreadPoolExecutor(8) as ex:
+            results = list(ex.map(one, range(8)))
+        for res in results:
             _design_ok(res, "random trees of depth 3")
             e, rr = _records(res, "rand")
             if e != envs2:
@@ -211,7 +232,7 @@ def run(ctx):
     outside_funcs: dict = {}
     disagree_samples = []
     if order:
-        res = ctx.tlc(MC, os.path.join(SYM, "SymDimMC_text.cfg"), tag="text", deadlock=False, timeout=1800,
+        res = _tlc(ctx, MC, os.path.join(SYM, "SymDimMC_text.cfg"), tag="text", deadlock=False, timeout=1800,
                       env={"TEXT_FILE": tf}, count=False)
         _design_ok(res, "Meaning of printed strings")
         got = {int(r["id"]): r for r in res.records() if r.get("k") == "text"}
